@@ -14,6 +14,7 @@ from .lib import *
 
 EXPLANATION = "Must-pass-through of the clearing assignments per module kind in ModuleGraph::prune_types (T2), field classification of the type-bearing ADT fields (T1), and the retain predicates / worklist type (T5, type rule)."
 NOT_DECIDED = "observational equality with a second, code-only build"
+CONFIGS = ["default", "nofastcheck"]  # thorough tier also analyses the build without fast_check / symbols
 ASSUMPTIONS = []
 
 # (ADT, field) -> how prune_types must neutralise it
@@ -46,6 +47,9 @@ def run(F, R, tier):
         return [n for n in walk(pt["body"]) if n["k"] == "Assign" and peel(n["l"]).get("k") == "Field" and peel(n["l"])["field"] == fieldname and peel(n["l"]).get("adt") == adt]
 
     for (adt, fld), want in CLEARED.items():
+        if not any(f["name"] == fld for f in F.adt(adt)["variants"][0]["fields"]):
+            R.note("field %s.%s does not exist in configuration %s" % (adt, fld, getattr(R, "config", "?")))
+            continue
         asg = assigns(fld, adt)
         if not R.ob("C17-a", "prune_types assigns %s.%s" % (adt, fld), len(asg) >= 1, "prune_types no longer clears %s.%s: type data survives pruning" % (adt, fld), pt["file"]):
             continue
@@ -72,6 +76,8 @@ def run(F, R, tier):
             elif name == "Wasm":
                 need = [("graph::WasmModule", "source_dts")]
             for adt, fld in need:
+                if not any(f["name"] == fld for f in F.adt(adt)["variants"][0]["fields"]):
+                    continue
                 tg = lambda n, adt=adt, fld=fld: n.get("k") == "Assign" and peel(n["l"]).get("field") == fld and peel(n["l"]).get("adt") == adt
                 bad, _ = must_pass(F, arm["body"], tg, exit_kinds=("fallthrough", "return", "break", "continue"))
                 R.ob("C17-a", "%s arm clears %s on every path" % (name, fld), not bad, "a path through the %s arm leaves %s untouched" % (name, fld), where(arm["body"]))
@@ -130,6 +136,19 @@ def run(F, R, tier):
     # redirects are followed
     gets = [n for n in pt["_nodes"] if n.get("k") == "MethodCall" and n["name"] == "get" and peel(n["recv"]).get("field") == "redirects"]
     R.ob("C17-b", "the walk follows redirects", len(gets) == 1, "prune_types no longer consults self.redirects", pt["file"])
+    for gt in gets:
+        m = gt["_p"]
+        while m is not None and m.get("k") not in ("Match", "If"):
+            m = m.get("_p")
+        ok = False
+        if m is not None and m.get("k") == "Match":
+            for arm in m["arms"]:
+                if pat_text(arm["pat"]).startswith("std::option::Option::Some("):
+                    binds = {b["lid"] for b in pat_bindings(arm["pat"])}
+                    adds = [n for n in walk(arm["body"]) if n.get("k") == "MethodCall" and n["name"] == "add"]
+                    ok = len(adds) == 1 and peel_value(adds[0]["args"][0]).get("lid") in binds
+        R.ob("C17-b", "a redirect source queues its *next hop* (every hop of a chain is walked and retained)", ok,
+             "the redirect branch of prune_types does not queue the redirect's own target: intermediate hops of a redirect chain are never seen, so `redirects.retain` drops them and the chain dangles", where(gt))
     spc = F.adt("collections::SeenPendingCollection")
     t = [F.types[f["ty"]] for f in spc["variants"][0]["fields"] if f["name"] == "inner"]
     R.ob("C17-b", "worklist is set-backed (each specifier processed once)", bool(t) and t[0].startswith("indexmap::IndexSet<"), "SeenPendingCollection.inner is %s" % t, spc["file"])
